@@ -235,3 +235,44 @@ Theorem c05_judge_accepts_model_all_sequences : forall ops text, Forall is_bytes
   c05_ok ops text (c05_model ops text) = true.
 Proof. exact judge_accepts_model_ops. Qed.
 Print Assumptions c05_judge_accepts_model_all_sequences.
+
+(* ---------------------------------------------------------------------------------------------------------------
+   THE BUILT STRUCTURE (the Dump observation of the run, Model/TrieDump.v).  [dump T] lists the node table in pre-order,
+   children in stored order; the run compares its encoding with the same walk over the real algz.Trie (reflect/unsafe).
+   For the trie of every pattern set: the dump lists every table node exactly once, and every dumped node (word w, node n)
+   is the table's node for w; the root has no fail link; the fail link of a non-root node is a trie word, a proper suffix
+   of w, and no longer proper suffix of w is a trie word; isEnd exactly when an inserted non-empty pattern has rune word
+   w; size = byte length of w; the children are strictly ascending and are exactly the runes c with w ++ [c] a trie word. *)
+From Coq Require Import Permutation.
+From V Require Import Model.TrieDump Proofs.TrieDump.
+
+Theorem c05_dump_of_built_trie : forall ps T, Forall is_bytes ps -> built ps T ->
+  Permutation (dump T) T /\
+  forall w n, In (w, n) (dump T) ->
+    get T w = Some n /\
+    (w = [] -> fail n = None) /\
+    (w <> [] -> exists u, fail n = Some u /\ inT T u = true /\ is_suffix u w /\ length u < length w /\
+                (forall u', is_suffix u' w -> length u' < length w -> inT T u' = true -> length u' <= length u)) /\
+    (isEnd n = true <-> exists p, In p ps /\ p <> [] /\ runes_of p = w) /\
+    nsize n = Z.of_nat (length (wbytes w)) /\
+    StronglySorted Z.lt (kids n) /\
+    (forall c, In c (kids n) <-> inT T (w ++ [c]) = true).
+Proof. exact dump_built. Qed.
+Print Assumptions c05_dump_of_built_trie.
+
+(* ... and for the trie of every operation sequence that ends with a build *)
+Theorem c05_dump_after_rebuilds : forall ops T, Forall is_bytes (inserted ops) -> canonical ops = true ->
+  run_ops empty_trie ops = Some T ->
+  let ps := inserted ops in
+  Permutation (dump T) T /\
+  forall w n, In (w, n) (dump T) ->
+    get T w = Some n /\
+    (w = [] -> fail n = None) /\
+    (w <> [] -> exists u, fail n = Some u /\ inT T u = true /\ is_suffix u w /\ length u < length w /\
+                (forall u', is_suffix u' w -> length u' < length w -> inT T u' = true -> length u' <= length u)) /\
+    (isEnd n = true <-> exists p, In p ps /\ p <> [] /\ runes_of p = w) /\
+    nsize n = Z.of_nat (length (wbytes w)) /\
+    StronglySorted Z.lt (kids n) /\
+    (forall c, In c (kids n) <-> inT T (w ++ [c]) = true).
+Proof. exact dump_after_ops. Qed.
+Print Assumptions c05_dump_after_rebuilds.
